@@ -24,6 +24,9 @@ def do_check(prop, tier, seed):
 
 def main():
     warnings.simplefilter('ignore')
+    repo = os.environ.get('VERIF_REPO')
+    if repo:
+        sys.path.insert(0, os.path.join(repo, 'src'))   # analyse a scratch copy instead of /repo
     ap = argparse.ArgumentParser(prog='vf')
     sub = ap.add_subparsers(dest='cmd', required=True)
     c = sub.add_parser('check')
